@@ -65,6 +65,7 @@ def run(chk):
     chk.rule("R4", "every catalogue operator has an API construction site; generated methods exist for generate_expr_method operators")
     chk.rule("R5", "sign analysis: Polars emulation of truncating // and % yields sign(lhs)*sign(rhs) resp. sign(lhs)")
     chk.rule("R7", "SQL implementations of string-valued operators return a typed expression (an untyped func.X(..) makes `+` render as numeric addition instead of ||)")
+    chk.rule("R8v", "Polars is_in interpreted to a term and evaluated for every valuation of (x, candidates) over {null,1,2} against the documented (x == v1) | (x == v2) | ..")
     chk.rule("R6v", "SQLite emulations of horizontal max / min and clip: interpreted to SQL terms and evaluated for every valuation of 1-4 arguments over {NULL,1,2,3} against the documented result")
     chk.rule("R6", "nullness analysis: horizontal min / max emulations on strict engines return NULL iff all arguments are NULL")
 
@@ -287,6 +288,18 @@ def run(chk):
                        f"{cex[2] if cex else ''} (clip of a missing value is missing)")  # fmt: skip
     chk.floor("R6v", "finite-domain evaluations of null-skipping emulations", n6v, 17)
     chk.trusted.append("sqleval: SQL semantics of scalar MAX/MIN (SQLite), GREATEST/LEAST, COALESCE, CASE, IS NULL, three-valued comparison")
+
+    # ---- R8v Polars is_in: three-valued membership
+    from .. import polsim
+
+    try:
+        res_i = polsim.is_in_scenarios(repo, [r for r in regs if r.opvar == "is_in" and r.store == "PolarsImpl"])
+        for desc, ok_, detail in res_i:
+            chk.ob("R8v", repo.mod("backend.polars"), None, f"polars is_in: {desc}", ok_, detail)
+        chk.floor("R8v", "Polars is_in evaluations", len(res_i), 3)
+    except (polsim.Unknown, AnalysisError, SymbolicBranch) as e:
+        chk.undecided.append(f"R8v: the Polars is_in implementation could not be evaluated ({str(e)[:140]})")
+    chk.trusted.append("polsim.poleval: null semantics of ==, |, any_horizontal (Kleene), is_in (a null candidate never matches, null input gives null)")
 
     chk.assumptions += [
         "Polars and SQLAlchemy overload the Python operators homomorphically (x + y builds an addition)",
